@@ -80,6 +80,8 @@ impl syn::parse::Parse for MatchesMacro {
 enum Resolved {
     Variant(String, VarInfo),
     Const(String, String),
+    /// a variant left out by `enum_subset`
+    Excluded(String, String),
 }
 
 impl<'u> Tr<'u> {
@@ -106,10 +108,16 @@ impl<'u> Tr<'u> {
             s => s.to_owned(),
         };
         let vname = &segs[segs.len() - 1];
+        if self.u.consts.contains_key(&(tname.clone(), vname.clone())) {
+            return Ok(Some(Resolved::Const(tname, vname.clone())));
+        }
         if self.u.enums.contains_key(&tname) {
             self.named_ty(&tname, sp)?;
             if let Some(v) = self.enum_info(&tname).variants.iter().find(|v| &v.name == vname) {
                 return Ok(Some(Resolved::Variant(tname.clone(), v.clone())));
+            }
+            if self.enum_info(&tname).excluded.iter().any(|x| x == vname) {
+                return Ok(Some(Resolved::Excluded(tname.clone(), vname.clone())));
             }
         }
         if self.u.consts.contains_key(&(tname.clone(), vname.clone())) {
@@ -148,7 +156,7 @@ impl<'u> Tr<'u> {
             let text = format!("Definition {coq} : {} := {}.", ty.coq(), g.render(2));
             let origin = format!("{}:{} const {key} {}", self.cur_file, at.item.span().start().line, tok_hash(&at.item.expr));
             self.emit(&coq, text, origin);
-            self.funcs.insert(key.clone(), FnInfo { coq: coq.clone(), has_self: false, mutating: false, params: vec![], ret: ty.clone() });
+            self.funcs.insert(key.clone(), FnInfo { coq: coq.clone(), has_self: false, mutating: false, params: vec![], ret: ty.clone(), partial: false });
             Ok((raw(coq.clone()), ty))
         })();
         self.cur_file = saved;
@@ -182,7 +190,17 @@ impl<'u> Tr<'u> {
         }
     }
 
-    /// translate a pattern against a scrutinee type; new bindings are pushed to `env`
+    fn excluded<T>(&self, sp: Span, en: &str, v: &str) -> R<T> {
+        Err(TErr {
+            file: self.cur_file.clone(),
+            line: sp.start().line,
+            msg: format!("`{en}::{v}` is left out by enum_subset"),
+            excluded: true,
+        })
+    }
+
+    /// translate a pattern against a scrutinee type; new bindings are pushed to `env`. An error
+    /// with `excluded` set means: the pattern can only match variants left out by enum_subset.
     fn pattern(&mut self, p: &Pat, ty: &Ty, env: &mut Env) -> R<String> {
         let sp = p.span();
         match p {
@@ -217,6 +235,7 @@ impl<'u> Tr<'u> {
                         }
                         Ok(format!("{en}_{}", v.name))
                     }
+                    Some(Resolved::Excluded(en, v)) => self.excluded(sp, &en, &v),
                     _ => self.err(sp, format!("unsupported path pattern `{}`", norm(p))),
                 }
             }
@@ -236,9 +255,17 @@ impl<'u> Tr<'u> {
                 let mut names: Option<BTreeSet<String>> = None;
                 let base = env.binds.len();
                 let mut first_env: Option<Env> = None;
+                let mut last_excluded: Option<TErr> = None;
                 for c in &o.cases {
                     let mut e2 = env.clone();
-                    alts.push(self.pattern(c, ty, &mut e2)?);
+                    match self.pattern(c, ty, &mut e2) {
+                        Ok(a) => alts.push(a),
+                        Err(e) if e.excluded => {
+                            last_excluded = Some(e);
+                            continue;
+                        }
+                        Err(e) => return Err(e),
+                    }
                     let ns: BTreeSet<String> = e2.binds[base..].iter().map(|b| b.rust.clone()).collect();
                     match &names {
                         None => names = Some(ns),
@@ -249,8 +276,11 @@ impl<'u> Tr<'u> {
                         first_env = Some(e2);
                     }
                 }
+                if alts.is_empty() {
+                    return Err(last_excluded.unwrap());
+                }
                 *env = first_env.unwrap();
-                Ok(format!("({})", alts.join(" | ")))
+                Ok(if alts.len() == 1 { alts.pop().unwrap() } else { format!("({})", alts.join(" | ")) })
             }
             Pat::TupleStruct(ts) => {
                 let segs: Vec<String> = ts.path.segments.iter().map(|s| s.ident.to_string()).collect();
@@ -269,6 +299,7 @@ impl<'u> Tr<'u> {
                 }
                 let (en, v) = match self.resolve_path(&ts.path, env)? {
                     Some(Resolved::Variant(en, v)) => (en, v),
+                    Some(Resolved::Excluded(en, v)) => return self.excluded(sp, &en, &v),
                     _ => return self.err(sp, format!("unknown constructor in pattern `{}`", norm(&ts.path))),
                 };
                 let elems: Vec<&Pat> = ts.elems.iter().collect();
@@ -302,6 +333,7 @@ impl<'u> Tr<'u> {
             Pat::Struct(ps) => {
                 let (en, v) = match self.resolve_path(&ps.path, env)? {
                     Some(Resolved::Variant(en, v)) => (en, v),
+                    Some(Resolved::Excluded(en, v)) => return self.excluded(sp, &en, &v),
                     _ => return self.err(sp, format!("unknown constructor in pattern `{}`", norm(&ps.path))),
                 };
                 let mut slots: Vec<Option<&Pat>> = vec![None; v.fields.len()];
@@ -580,9 +612,15 @@ impl<'u> Tr<'u> {
         } else {
             segs[0].clone()
         };
+        if self.spec.opaque_calls.iter().any(|k| *k == key) {
+            return self.opaque_input(&key, sp);
+        }
         let fi = self.ensure_fn(&key, sp)?;
         if fi.mutating {
             return self.err(sp, format!("call of the mutating `{key}` in an expression"));
+        }
+        if fi.partial {
+            return self.err(sp, format!("`{key}` has opaque inputs or untranslated parameters and cannot be called from a translated function"));
         }
         let gs = self.call_args(args, &fi.params, env, sp)?;
         Ok((app(&fi.coq, gs), fi.ret.clone()))
@@ -660,6 +698,9 @@ impl<'u> Tr<'u> {
                 if fi.mutating {
                     return self.err(sp, format!("call of the mutating `{key}` in an expression"));
                 }
+                if fi.partial {
+                    return self.err(sp, format!("`{key}` has opaque inputs or untranslated parameters and cannot be called from a translated function"));
+                }
                 let mut gs = vec![recv];
                 gs.extend(self.call_args(args, &fi.params, env, sp)?);
                 Ok((app(&fi.coq, gs), fi.ret.clone()))
@@ -670,8 +711,58 @@ impl<'u> Tr<'u> {
 
     /// `self.m(args)` declared under opaque_calls: its value is an input of the function being
     /// translated (a parameter added to it)
-    fn try_opaque_call(&mut self, _m: &syn::ExprMethodCall, _env: &Env) -> R<Option<(G, Ty)>> {
-        Ok(None)
+    fn try_opaque_call(&mut self, m: &syn::ExprMethodCall, env: &Env) -> R<Option<(G, Ty)>> {
+        if self.spec.opaque_calls.is_empty() {
+            return Ok(None);
+        }
+        let tn = match self.expr(&m.receiver, env, None) {
+            Ok((_, Ty::Struct(n))) | Ok((_, Ty::Enum(n))) => n,
+            _ => return Ok(None),
+        };
+        let key = format!("{tn}::{}", m.method);
+        if !self.spec.opaque_calls.iter().any(|k| *k == key) {
+            return Ok(None);
+        }
+        self.opaque_input(&key, m.span()).map(Some)
+    }
+
+    /// the value of a call listed under opaque_calls: an extra parameter of the function being
+    /// translated, typed by the callee's declared return type; the arguments are not looked at
+    fn opaque_input(&mut self, key: &str, sp: Span) -> R<(G, Ty)> {
+        let site = format!("{key}@{}:{}", sp.start().line, sp.start().column);
+        if let Some((_, n, t)) = self.opaque.iter().find(|(k, _, _)| *k == site) {
+            // the same call site, translated a second time
+            return Ok((raw(n.clone()), t.clone()));
+        }
+        if self.opaque.iter().any(|(k, _, _)| k.starts_with(&format!("{key}@"))) {
+            return self.err(sp, format!("the opaque call `{key}` occurs more than once in one function"));
+        }
+        let u = self.u;
+        let (file, sig): (usize, &Signature) = match key.split_once("::") {
+            Some((t, m)) => match one(u.methods.get(&(t.to_owned(), m.to_owned())), &format!("method {key}")) {
+                Ok(a) => (a.file, &a.item.sig),
+                Err(msg) => return self.err(sp, msg),
+            },
+            None => match one(u.fns.get(key), &format!("function {key}")) {
+                Ok(a) => (a.file, &a.item.sig),
+                Err(msg) => return self.err(sp, msg),
+            },
+        };
+        let rt = match &sig.output {
+            ReturnType::Type(_, t) => (**t).clone(),
+            ReturnType::Default => return self.err(sp, format!("the opaque call `{key}` returns nothing")),
+        };
+        let saved = std::mem::replace(&mut self.cur_file, u.files[file].clone());
+        let owner = key.split_once("::").map(|(t, _)| t.to_owned());
+        let ty = self.ty(&rt, owner.as_deref());
+        self.cur_file = saved;
+        let ty = ty?;
+        let name = format!("o_{}", key.rsplit("::").next().unwrap());
+        self.opaque.push((site, name.clone(), ty.clone()));
+        self.notes.push(format!(
+            "opaque call: the value of `{key}(..)` is an input `{name}` of the function that calls it (its arguments and its body are not translated)"
+        ));
+        Ok((raw(name), ty))
     }
 
     fn struct_lit(&mut self, s: &syn::ExprStruct, env: &Env) -> R<(G, Ty)> {
@@ -731,6 +822,12 @@ impl<'u> Tr<'u> {
     /// pure expression (no `return` inside)
     fn expr(&mut self, e: &Expr, env: &Env, hint: Option<&Ty>) -> R<(G, Ty)> {
         let sp = e.span();
+        if let Expr::Field(_) = e {
+            // a declared free variable of a tail_match request (`runner_opts.no_tests`)
+            if let Some(b) = env.lookup(&norm(e)) {
+                return Ok((raw(b.coq.clone()), b.ty.clone()));
+            }
+        }
         match e {
             Expr::Paren(p) => self.expr(&p.expr, env, hint),
             Expr::Group(p) => self.expr(&p.expr, env, hint),
@@ -772,6 +869,9 @@ impl<'u> Tr<'u> {
                         Ok((raw(format!("{en}_{}", v.name)), Ty::Enum(en)))
                     }
                     Some(Resolved::Const(t, c)) => self.ensure_const(&t, &c, sp),
+                    Some(Resolved::Excluded(en, v)) => {
+                        self.err(sp, format!("`{en}::{v}` is built here but left out by enum_subset"))
+                    }
                     None => self.err(sp, format!("unknown name `{}`", norm(&p.path))),
                 }
             }
